@@ -662,3 +662,33 @@ func J(v interface{}) json.RawMessage {
 	}
 	return b
 }
+
+// HashSet counts distinct 64-bit hashes in bounded memory (a 2^k-bit bitmap): Add reports
+// whether the hash was new. Two hashes falling on the same bit are counted once, so Len is a
+// lower bound of the number of distinct hashes (with 2^29 bits and 10^7 entries it is short
+// by about 1%); the verdict of a check never depends on it.
+type HashSet struct {
+	bits []uint64
+	mask uint64
+	n    int64
+}
+
+func NewHashSet(log2bits uint) *HashSet {
+	return &HashSet{bits: make([]uint64, 1<<(log2bits-6)), mask: 1<<log2bits - 1}
+}
+
+func (s *HashSet) Add(h uint64) bool {
+	h ^= h >> 29
+	h *= 0x9E3779B97F4A7C15
+	h ^= h >> 32
+	i := h & s.mask
+	w, b := i>>6, uint64(1)<<(i&63)
+	if s.bits[w]&b != 0 {
+		return false
+	}
+	s.bits[w] |= b
+	s.n++
+	return true
+}
+
+func (s *HashSet) Len() int64 { return s.n }
